@@ -185,7 +185,10 @@ def check_case(params):
             for a, b in reversed(pairs):
                 ds = ds.subs(a, b)
         else:
-            ds = d.subs(pairs)
+            arg = list(pairs)
+            ds = d.subs(arg)
+            if arg != pairs:
+                bad("argument-mutated", "subs changed the list of pairs it was given: %s" % (arg,))
     except Exception as e:  # noqa
         bad("subs-raises", "subs raised %s: %s" % (type(e).__name__, str(e)[:120]))
         return out
